@@ -13,6 +13,8 @@ Site shapes (each site of the source inventory `Gen.HashSites.sites` is classifi
                     commutative-idempotent operation (set union, `||`, assertions)
 * `fixpoint`        monotone closure iterated to a fixpoint (usage analysis)
 * `unobserved`      the ordered result is stored but no consumer reads its order
+* `firstFailure`    checks only (`assert!`, `unreachable!`, `return None`): whether one fails never depends on the
+                    order; which one is reported does not either when all failures carry the same payload
 -/
 namespace RsslVerif.Model.HashOrder
 
@@ -27,5 +29,12 @@ def lookupAfterInserts {κ ν : Type} [BEq κ] (iterationOrder : List (κ × ν)
 /-- folding the elements with a binary operation (e.g. set union into `used_names_all_scopes`) -/
 def foldAll {α β : Type} (op : β → α → β) (init : β) (iterationOrder : List α) : β :=
   iterationOrder.foldl op init
+
+/-- a loop whose only effect is to leave at the first element that fails a check (`assert!`, `unreachable!`,
+    `return None`, `?`): the result is the first failure met in iteration order -/
+def firstFailure {α ε : Type} (check : α → Option ε) (iterationOrder : List α) : Except ε Unit :=
+  match iterationOrder.findSome? check with
+  | none => .ok ()
+  | some e => .error e
 
 end RsslVerif.Model.HashOrder
